@@ -916,8 +916,8 @@ def update_statements_for_language(language):
     language : str
         "c" or "c++"
     """
-    statements.update_for_language(lua_statements, language)
-    statements.update_stmt_tree(lua_statements, lua_tree, default_stmts)
+    stmts = statements.update_for_language(lua_statements, language)
+    statements.update_stmt_tree(stmts, lua_tree, default_stmts)
     global default_scope
     default_scope = statements.default_scopes["lua"]
 
